@@ -377,6 +377,7 @@ class Unit:
         self.notdecided = []
         self.sources = {}
         self.vac_ids = []
+        self.vac_files = {}
         self.lemmas = []
         self.flags = set()
 
@@ -626,6 +627,7 @@ class Unit:
                     vid = f"{path}#loop{k}"
                     vac = f" assert(false); /*VAC:{vid}*/ "
                     self.vac_ids.append(vid)
+                    self.vac_files[vid] = relfile
                 if lp["kind"] == "for" and r4 is not None and (r4set is None or k in r4set):
                     ps, pe = lp["pat"]
                     is_, ie = lp["iter"]
@@ -661,6 +663,7 @@ class Unit:
                 vid = f"{path}#entry"
                 vac = f" assert(false); /*VAC:{vid}*/ "
                 self.vac_ids.append(vid)
+                self.vac_files[vid] = relfile
             if entry.strip() or vac:
                 txt = ""
                 if vac:
@@ -877,7 +880,7 @@ class Unit:
         return text, {"unit": self.name, "line_starts": starts, "origins": origins, "rewrites": self.rewrites,
                       "functions": self.functions, "items": self.items, "trusted": self.trusted,
                       "bounded": self.bounded, "notdecided": self.notdecided, "sources": self.sources,
-                      "vac_ids": self.vac_ids, "lemmas": self.lemmas}
+                      "vac_ids": self.vac_ids, "vac_files": self.vac_files, "lemmas": self.lemmas}
 
 
 def origin_of(meta, line):
